@@ -246,6 +246,28 @@ def side_struct(spec, side):
     return st
 
 
+def part_masks(st):
+    """partially nil chains: one mask per embedded pointer (that pointer nil, everything else populated), plus all of them nil"""
+    sl = slots(st)
+    emb = set()
+
+    def walk(s_, pre=()):
+        for m in s_["members"]:
+            if m["k"] == "e":
+                p = ".".join(pre + (m["decl"]["name"],))
+                if m["ptr"]:
+                    emb.add(p)
+                walk(m["decl"], pre + (m["decl"]["name"],))
+    walk(st)
+    idx = [i for i, x in enumerate(sl) if x in emb]
+    out = []
+    for i in idx:
+        out.append("".join("1" if j == i else "0" for j in range(len(sl))))
+    if len(idx) > 1:
+        out.append("".join("1" if j in idx else "0" for j in range(len(sl))))
+    return out
+
+
 def all_types(spec):
     out = []
 
@@ -817,6 +839,20 @@ def mk_spec(src_members, dest_members, way="both", i=False, alias="", sname="S",
               "funcs": [{"name": "Fn%d" % k, "param": a, "result": b} for k, (a, b) in enumerate(funcs)]}
     return {"flags": {"way": way, "i": i, "alias": alias}, "sname": sname, "dname": dname or sname,
             "src": ST(sname, src_members, src_kind), "dest": ST(dname or sname, dest_members, dest_kind), "mapper": mp}
+
+
+def shadow_chain(side, order, ptr=(True, True), other_flat=True):
+    """Record{*Base}; Base{*Audit; ID; Code} (order 'embed-first') or Base{ID; Code; *Audit} ('field-first'); Audit{ID; Code; Label}:
+    a name redeclared between depth 1 and depth 2 of a pointer chain; the other side is flat"""
+    audit = ST("Audit", [F("ID", INT), F("Code", STR), F("Label", STR)])
+    mid_fields = [F("ID", INT), F("Code", STR)]
+    emb = E(audit, ptr[1])
+    base = ST("Base", ([emb] + mid_fields) if order == "embed-first" else (mid_fields + [emb]))
+    chain = [E(base, ptr[0]), F("Note", STR)]
+    flat = [F("ID", INT), F("Code", STR), F("Label", STR), F("Note", STR)]
+    if side == "src":
+        return mk_spec(chain, flat, sname="Record")
+    return mk_spec(flat, chain, sname="Record")
 
 
 WITNESSES = {
